@@ -212,7 +212,8 @@ pub fn parse_case(out: &mut Out, w: &mut Worker, prop: &str, mode: &str, text: &
 // text generation
 
 fn ws(rng: &mut Rng, must: bool) -> String {
-    let pool = [" ", "  ", "\t", " \t ", "\n", "\u{3000}", "\u{85}", "\u{a0} "];
+    // (every ASCII character `char::is_whitespace` accepts — blank, tab, LF, VT, FF, CR — and some non-ASCII ones)
+    let pool = [" ", "  ", "\t", " \t ", "\n", "\u{3000}", "\u{85}", "\u{a0} ", "\u{b}", "\u{c}", "\r", "\u{b}\u{c}"];
     match rng.below(if must { 10 } else { 14 }) {
         0..=6 => " ".to_string(),
         7..=9 => pool[rng.below(pool.len())].to_string(),
